@@ -3,7 +3,7 @@
    The analysis [diag] is a parameter; the history-independence theorem assumes it is a function of the
    current contents (not of the order in which documents were stored) -- that is property C06. *)
 From Coq Require Import List NArith ZArith Bool.
-From Verif Require Import Model.Lsp Proofs.LspInv.
+From Verif Require Import Model.Lsp Proofs.LspInv Proofs.LspCurrent.
 From Coq Require Sorting.Sorted.
 From Verif Require Gen.GenProject Model.Project Proofs.ProjectProofs.
 Import ListNotations.
@@ -102,3 +102,12 @@ Theorem C11_project_model_is_the_source :
   GenProject.check_calls = "project.semantic()"%string.
 Proof. repeat split; reflexivity. Qed.
 
+
+(* What the server holds for a file document after ANY history is what the history's last edits of THAT document left: the text of
+   its last didOpen / non-empty didChange since it was last closed, nothing when it is closed or was never opened.  No earlier
+   text, no other document's messages have a say (the statement is about one k and mentions the other messages only through
+   [after], which passes them by). *)
+Theorem C11_contents_are_the_last_edits :
+  forall (text D T : Type) diag no_diag tokens null_tokens (ms : list (Lsp.msg text)) (d : Lsp.docs text) k,
+  Lsp.get text (fst (Lsp.run text D T diag no_diag tokens null_tokens d ms)) k = LspCurrent.current text ms k (Lsp.get text d k).
+Proof. exact LspCurrent.run_get. Qed.
